@@ -45,7 +45,7 @@ Definition exp_Task_executeCommand : list stm :=
   [SCall "exec.Command(""bash"", ""-c"", ""cd ""+t.TempDir()+"" && ""+cmd+"" && cd .."").CombinedOutput"; SIf "err != nil" [SFail] []].
 
 Definition exp_Task_writeAuditLogs : list stm :=
-  [SAssign "auditInfo.Command"; SCall "t.Process.Name"; SAssign "auditInfo.Params"; SAssign "auditInfo.StartTime"; SAssign "auditInfo.FinishTime"; SAssign "auditInfo.ExecTimeNS"; SRange "t.InIPs" [SIf "t.portInfos[inpName].join" [SRange "t.subStreamIPs[inpName]" [SCall "subIP.AuditInfo"]; SBranch "continue"] []; SCall "iip.AuditInfo"]; SRange "t.OutIPs" [SCall "oip.Path"]; SRange "t.OutIPs" [SCall "oip.SetAuditInfo"; SRange "t.InIPs" [SCall "oip.AddTags"]; SCall "oip.WriteAuditLogToFile"]].
+  [SAssign "auditInfo.Command"; SCall "t.Process.Name"; SAssign "auditInfo.Params"; SAssign "auditInfo.StartTime"; SAssign "auditInfo.FinishTime"; SAssign "auditInfo.ExecTimeNS"; SRange "t.InIPs" [SIf "t.portInfos[inpName].join" [SRange "t.subStreamIPs[inpName]" [SCall "subIP.auditInfoSnapshot"]; SBranch "continue"] []; SCall "iip.auditInfoSnapshot"]; SRange "t.OutIPs" [SCall "oip.Path"]; SRange "t.OutIPs" [SAssign "oipAuditInfo.Tags"; SCall "oip.SetAuditInfo"; SRange "t.InIPs" [SCall "oip.AddTags"]; SCall "oip.WriteAuditLogToFile"]].
 
 Definition exp_Task_drainStreamingInputs : list stm :=
   [SRange "t.InIPs" [SIf "iip.doStream" [SCall "os.Open"; SIf "err != nil" [SBranch "continue"] []; SCall "io.Copy"; SCall "fifo.Close"] []]].
@@ -153,7 +153,7 @@ Definition exp_FileIP_Write : list stm :=
   [SCall "ip.createDirs"; SCall "ip.TempPath"; SIf "ip.tempBaseDir != """"" [] []; SCall "ioutil.WriteFile(tempPath, dat, 0644)"; SCall "CheckWithMsg(err, ""Could not write to temp file: "" + tempPath)"].
 
 Definition exp_FileIP_AddTag : list stm :=
-  [SCall "ip.AuditInfo"; SIf "ai.Tags[k] != """" && ai.Tags[k] != v" [SFail] []; SAssign "ai.Tags[k]"].
+  [SCall "ip.AuditInfo"; SLock "ip.lock"; SDefer (SUnlock "ip.lock"); SIf "ai.Tags[k] != """" && ai.Tags[k] != v" [SFail] []; SAssign "ai.Tags[k]"].
 
 Definition exp_FileIP_AuditInfo : list stm :=
   [SDefer (SUnlock "ip.lock"); SLock "ip.lock"; SIf "ip.auditInfo == nil" [SCall "UnmarshalAuditInfoJSONFile"] []; SReturn "ip.auditInfo"].
@@ -162,7 +162,7 @@ Definition exp_FileIP_SetAuditInfo : list stm :=
   [SLock "ip.lock"; SAssign "ip.auditInfo"; SUnlock "ip.lock"].
 
 Definition exp_FileIP_WriteAuditLogToFile : list stm :=
-  [SCall "ip.AuditInfo"; SCall "json.MarshalIndent"; SCall "CheckWithMsg(jsonErr, ""Could not marshall JSON"")"; SCall "ip.createDirs"; SCall "ioutil.WriteFile(ip.AuditFilePath(), auditInfoJSON, 0644)"; SCall "CheckWithMsg(writeErr, ""Could not write audit file: "" + ip.Path())"].
+  [SCall "ip.AuditInfo"; SLock "ip.lock"; SCall "json.MarshalIndent"; SUnlock "ip.lock"; SCall "CheckWithMsg(jsonErr, ""Could not marshall JSON"")"; SCall "ip.createDirs"; SCall "ioutil.WriteFile(ip.AuditFilePath(), auditInfoJSON, 0644)"; SCall "CheckWithMsg(writeErr, ""Could not write audit file: "" + ip.Path())"].
 
 Definition exp_FileIP_CreateFifo : list stm :=
   [SCall "ip.createDirs"; SLock "ip.lock"; SBlock [SCall "os.Stat"; SIf "err == nil" [] [SCall "exec.Command(""bash"", ""-c"", cmd).Output"; SCall "CheckWithMsg(err, ""Could not execute command: "" + cmd)"]]; SUnlock "ip.lock"].
@@ -172,4 +172,52 @@ Definition exp_NewTask : list stm :=
 
 Definition exp_NewFileIP : list stm :=
   [SCall "pathIsValid"; SIf "err != nil" [SReturn "nil, err"] []; SIf "!isValid" [SReturn "nil, <error>"] []; SIf "ip.Exists()" [SCall "ip.AuditInfo"] []; SReturn "ip, nil"].
+
+Definition exp_FileIP_Tags : list stm :=
+  [SCall "ip.AuditInfo"; SLock "ip.lock"; SDefer (SUnlock "ip.lock"); SRange "ai.Tags" [SAssign "tags[k]"]; SReturn "tags"].
+
+Definition exp_FileIP_Tag : list stm :=
+  [SCall "ip.AuditInfo"; SLock "ip.lock"; SRead "ai.Tags[k]"; SUnlock "ip.lock"; SIf "!ok" [SReturn """"""] []; SReturn "v"].
+
+Definition exp_FileIP_AddTags : list stm :=
+  [SRange "tags" [SCall "ip.AddTag"]].
+
+Definition exp_FileIP_auditInfoSnapshot : list stm :=
+  [SCall "ip.AuditInfo"; SLock "ip.lock"; SDefer (SUnlock "ip.lock"); SAssign "snapshot.Tags"; SRange "ai.Tags" [SAssign "snapshot.Tags[k]"]; SReturn "&snapshot"].
+
+Definition exp_FileIP_Exists : list stm :=
+  [SAssign "exists := false"; SLock "ip.lock"; SBlock [SCall "os.Stat"; SIf "err == nil" [SAssign "exists = true"] []]; SUnlock "ip.lock"; SReturn "exists"].
+
+Definition exp_FileIP_FifoFileExists : list stm :=
+  [SLock "ip.lock"; SBlock [SCall "os.Stat"; SIf "err == nil" [] []]; SUnlock "ip.lock"; SReturn "fifoFileExists"].
+
+Definition exp_UnmarshalAuditInfoJSONFile : list stm :=
+  [SCall "ioutil.ReadFile"; SIf "readFileErr != nil" [SIf "os.IsNotExist(readFileErr)" [] [SFail]] [SCall "json.Unmarshal"; SCall "CheckWithMsg(unmarshalErr, ""Could not unmarshal audit log file content: "" + fileName)"]; SReturn "auditInfo"].
+
+Definition exp_components_MapToTags_Run : list stm :=
+  [SDefer (SCall "p.CloseAllOutPorts"); SRange "p.In().Chan" [SCall "p.mapFunc"; SCall "ip.AddTags"; SCall "ip.WriteAuditLogToFile"; SCall "p.Out().Send"]].
+
+Definition exp_components_StreamToSubStream_Run : list stm :=
+  [SDefer (SCall "p.CloseAllOutPorts"); SCall "ioutil.TempFile"; SIf "err != nil" [SCall "panic"] []; SDefer (SCall "os.Remove(tmpfile.Name())"); SCall "scipipe.Debug.Println"; SCall "scipipe.NewFileIP"; SIf "err != nil" [SFail] []; SCall "scipipe.Debug.Printf"; SCall "p.In"; SCall "scipipe.Debug.Printf"; SCall "p.OutSubStream().Send"; SCall "scipipe.Debug.Printf"].
+
+Definition exp_components_FileCombinator_Run : list stm :=
+  [SDefer (SCall "p.CloseAllOutPorts"); SRange "p.InPorts()" [SAssign "inIPs[pName]"; SRange "inPort.Chan" [SAssign "inIPs[pName]"]]; SRange "inIPs" []; SCall "p.combine"; SRange "outIPs" [SCall "wg.Add"; SGo (SBlock [SRange "ips" [SCall "p.Out(pName).Send"]; SCall "wg.Done"])]; SCall "wg.Wait"].
+
+Definition exp_components_ParamCombinator_Run : list stm :=
+  [SDefer (SCall "p.CloseAllOutPorts"); SRange "p.InParamPorts()" [SAssign "inParams[pName]"; SRange "inPort.Chan" [SAssign "inParams[pName]"]]; SRange "inParams" []; SCall "combine"; SRange "outIPs" [SCall "wg.Add"; SGo (SBlock [SRange "ps" [SCall "p.OutParam(pName).Send"]; SCall "wg.Done"])]; SCall "wg.Wait"].
+
+Definition exp_components_IPSelectorSync_Run : list stm :=
+  [SDefer (SCall "p.CloseAllOutPorts"); SRange "p.syncRead()" [SRange "ips" [SIf "!p.includeFunc(ip)" [SBranch "goto"] []]; SRange "ips" [SCall "p.Out(iname).Send"]; SUnknown "End: continue"]].
+
+Definition exp_components_Concatenator_Run : list stm :=
+  [SDefer (SCall "p.CloseAllOutPorts"); SCall "scipipe.NewFileIP"; SIf "err != nil" [SFail] []; SCall "os.MkdirAll(oipDir, 0777)"; SIf "err != nil" [SFail] []; SCall "os.Create"; SIf "err != nil" [SFail] []; SRange "p.In().Chan" [SCall "inIP.Tag"; SIf "tagVal != """"" [SIf "!ok" [SCall "scipipe.NewFileIP"; SIf "err != nil" [SFail] []; SCall "outIPForTag.AddTag"; SAssign "outIPsByTag[tagVal]"; SCall "os.Create"; SIf "err != nil" [SFail] []; SAssign "outFhsByTag[tagVal]"] []; SCall "ioutil.ReadFile"; SIf "err != nil" [SFail] []; SCall "outFhsByTag[tagVal].Write"; SIf "err != nil" [SFail] []; SCall "outFhsByTag[tagVal].Write"; SIf "err != nil" [SFail] []] [SCall "ioutil.ReadFile"; SIf "err != nil" [SFail] []; SCall "outFh.Write"; SIf "err != nil" [SFail] []; SCall "outFh.Write"; SIf "err != nil" [SFail] []]]; SCall "outFh.Close"; SIf "err != nil" [SFail] []; SRange "outFhsByTag" [SCall "taggedFh.Close"]; SCall "p.Out().Send"; SRange "outIPsByTag" [SCall "p.Out().Send"]].
+
+Definition exp_components_FileSplitter_Run : list stm :=
+  [SDefer (SCall "p.CloseAllOutPorts"); SRange "p.InFile().Chan" [SCall "p.newSplitIPFromIndex"; SIf "!splitIP.Exists()" [SCall "os.Open"; SIf "err != nil" [SCall "errWrapf"; SFail] []; SDefer (SCall "inFile.Close"); SCall "p.createNewSplitFile"; SCall "bufio.NewScanner"; SFor "scanner.Scan()" [SCall "splitFile.WriteString"; SIf "lineNo == splitNo*p.LinesPerSplit" [SCall "splitFile.Close"; SCall "scipipe.FinalizePaths"; SCall "p.OutSplitFile().Send"; SCall "p.newSplitIPFromIndex"; SCall "p.createNewSplitFile"] []]; SCall "splitFile.Close"; SCall "scipipe.FinalizePaths"; SCall "p.OutSplitFile().Send"; SIf "scanner.Err() != nil" [SCall "errWrapf"; SFail] []] []]].
+
+Definition exp_components_FileSource_Run : list stm :=
+  [SDefer (SCall "p.CloseAllOutPorts"); SRange "p.filePaths" [SCall "scipipe.NewFileIP"; SIf "err != nil" [SFail] []; SCall "p.Out().Send"]].
+
+Definition exp_components_ParamSource_Run : list stm :=
+  [SDefer (SCall "p.CloseAllOutPorts"); SRange "p.params" [SCall "p.Out().Send"]].
 
